@@ -437,6 +437,7 @@ inductive EOp where
   | set (a : Aid) (p : Pos)
   | remove (a : Aid)
   | iadd (a : Aid) (v : Pos)
+  | raw (i : Nat) (p : Pos)   -- `space.agent_positions[i] = p`: a user write through the public view
 deriving Repr, DecidableEq
 
 /-- state after one call.  Agent objects are created fresh by the constructor, so `new a`
@@ -447,6 +448,7 @@ def estep (s : ESpace) : EOp → ESpace
   | .set a p => match agentSet s a p with | .ok s' => s' | .error _ => s
   | .remove a => match agentRemove s a with | .ok s' => s' | .error _ => s
   | .iadd a v => match agentIadd s a v with | .ok s' => s' | .error _ => s
+  | .raw i p => match rawWrite s i p with | .ok s' => s' | .error _ => s
 
 def erun (c : ECfg) (cap : Nat) (ops : List EOp) : ESpace := ops.foldl estep (einit c cap)
 
